@@ -109,7 +109,10 @@ def _problems(fam, n, seed):
                 xmin = R.q_minimiser(d)
                 low = d["Q"][:, int(onp.argmin(d["lam"]))]
                 starts = [("zero", onp.zeros(n)), ("far", 10.0 * onp.array([1.0, -1.0, 0.5, 2.0, -0.7, 1.3, -1.1, 0.4][:n])),
-                          ("nearsaddle", 1e-3 * low), ("atmin", xmin), ("3e1", 3.0 * onp.eye(n)[0])]
+                          ("nearsaddle", 1e-3 * low), ("atmin", xmin), ("3e1", 3.0 * onp.eye(n)[0]),
+                          # 1e3 away: more than max_trust_iters * tr_size; only a radius that grows after boundary steps gets
+                          # there (added after a seeded change that stopped the growth after Cauchy steps went undetected)
+                          ("1e3", 1.0e3 * onp.array([0.6, -0.8, 0.3, 0.5, -0.2, 0.4, -0.1, 0.2][:n]))]
                 for sl, x0 in starts:
                     out.append(({"fam": "quartic:" + spec, "basis": basis, "start": sl}, d, x0))
     elif fam == "rosenbrock":
